@@ -110,6 +110,33 @@ def main():
         pass
     def new_old_id(e):
         w = e["obs"]["ws"][e["w"] - 1]
+    # ---- registries of other sizes (RegN) -------------------------------------------------------
+    build_harness(["worlddrv", "regndrv"])
+    rbase = os.path.join(d, "regn.ndjson")
+    sh([bin_path("regndrv"), "7", "30", rbase])
+    revs = load(rbase)
+    r = tlc_trace("TraceRegN.tla", "TraceRegN.cfg", rbase, rbase + ".meta")
+    if r["fails"]:
+        raise ToolError("selftest: the uncorrupted regn trace is not accepted: %s" % r["fails"][:3])
+    def rmut(tag, prop, pred, fn):
+        c = copy.deepcopy(revs)
+        i = first(c, pred, 0)
+        fn(c[i])
+        expect("TraceRegN.tla", "TraceRegN.cfg", c, prop, tag, d, results)
+    def setf(path, val):
+        def f(e):
+            x = e
+            for k in path[:-1]:
+                x = x[k]
+            x[path[-1]] = val
+        return f
+    rmut("regn-roundtrip-rejected-n8", "C06", lambda e: e["n"] == 8 and e["masks"], setf(["res", "ok"], False))
+    rmut("regn-padding-bit-accepted", "C11", lambda e: e["res"]["pad"] == "rejected", setf(["res", "pad"], "accepted"))
+    rmut("regn-identifier-byte-wrong", "C06", lambda e: e["n"] == 16 and e["enc"] == "json" and e["res"]["wire"],
+         lambda e: e["res"]["wire"][0].__setitem__(1, (e["res"]["wire"][0][1] + 1) % 256))
+    rmut("regn-query-reads-other-column", "C03", lambda e: e["n"] == 17 and any(c[0] for c in e["res"]["pre"]["counts"]),
+         lambda e: next(c for c in e["res"]["pre"]["counts"] if c[0]).__setitem__(1, 1))
+    rmut("regn-table-missing", "C13", lambda e: len(e["res"]["pre"]["tables"]) >= 2, lambda e: e["res"]["pre"]["tables"].pop())
     # ---- schedule trace ------------------------------------------------------------------------
     sb = os.path.join(d, "sched.ndjson")
     sh([bin_path("sched_q00"), sb])
